@@ -82,13 +82,16 @@ CHECKS = {
                      'header part under the element\'s own name; response envelope iff output; address literal = soap:address.',
                 note='trusted: SMI environment models; serialization itself (yaserde) is outside; two operations, <= 2 header parts; single-part bodies when parts= is absent'),
     'C07': dict(engine='E2-smi', cat='model_checking', design='4/C07',
-                technique='symbolic execution of facet extraction + constructor/delegation emitters and of the async helper coroutine MIR; z3 decides emission obligations per path',
-                text='(b) A restricted simple type whose supported facets (each absent or one of several values incl. negative and i32 extremes, as child elements or attributes of '
+                technique='symbolic execution (own MIR interpreter + z3) of the check code zeep generates, of facet extraction + constructor/delegation emitters and of the async helper coroutine MIR; z3 decides every obligation per path',
+                text='(a) zeep\'s output for a facet fixture (length facets, enumeration, integer bounds on text, a simple type derived from a restricted simple type, optional / repeated / '
+                     'attribute members, depth 2) is compiled, its MIR dumped and Outer::check_restrictions(None) executed with symbolic leaf values at one or two positions; z3 decides per '
+                     'path whether the Ok/Err outcome differs from the facets the schema declares (own and inherited); counterexamples and all single-position cases are re-run natively. '
+                     '(b) A restricted simple type whose supported facets (each absent or one of several values incl. negative and i32 extremes, as child elements or attributes of '
                      'xs:restriction), enumerations and base are symbolic is pushed through build_restrictions / Restrictions::write_xml / write_check_restrictions_header: z3 decides per '
                      'path whether the emitted constructor differs from the declared facet set; every struct and envelope (incl. Header/Body) must delegate the check to each field once and '
                      'propagate the error. (c) The coroutine MIR of both send helpers is explored over symbolic stub outcomes: the restriction check is the first action and its failure '
-                     'is returned before serialization or any reqwest call. Facet semantics of the values are C06 (Kani).',
-                note='trusted: SMI environment models, reqwest/yaserde stubs; value-level execution of zeep-generated check code (one known gap: own facets of a simple type derived from a restricted simple type) is not in the quick tier'),
+                     'is returned before serialization or any reqwest call. Thorough adds Kani on the generated code. Facet semantics on integer carriers are C06 (Kani).',
+                note='trusted: SMI environment models, reqwest/yaserde stubs; leaf values range over 21 strings per position (finite domain, stated in the evidence)'),
     'C16': dict(engine='E2-smi', cat='other', design='4/C16',
                 technique='symbolic execution of the async helpers\' coroutine MIR over contract-constrained nondeterministic stubs of reqwest / yaserde (z3 Booleans for every outcome)',
                 text='Claimed for zeep\'s side of the exchange only: both helpers (given client / fresh client) are executed from their coroutine MIR; credentials, the result of each stage '
